@@ -43,6 +43,55 @@ def sessions(tier):
     return out
 
 
+def guard_sessions(tier):
+    """directed: rules whose bodies have a primitive guard on an i64 argument; facts derived only through them"""
+    from .sessgen import Prog
+    r = random.Random(core.seed() * 31 + 7)
+    out = []
+    for k in range(4 if tier == "quick" else 80):
+        p = Prog()
+        A = p.add("A", "con", [], "E")
+        N = p.add("N", "con", ["i64"], "E")
+        R = p.add("R", "con", ["E"], "RelR", rel=True)
+        S = p.add("S", "con", ["E"], "RelS", rel=True)
+        p.rsets.append(dict(name="rs0", kind="rules", subs=[]))
+        V = lambda n: {"v": n}
+        bound = r.randrange(1, 4)
+        op1, op2 = r.choice(["lt", "le"]), r.choice(["neq", "lt"])
+        p.rules.append(dict(rs="rs0", name="small", body=[dict(k="tab", f=N, a=[V(1)], o=V(2)), dict(k="cmp", op=op1, l=V(1), r={"i": bound})],
+                            head=[dict(k="ins", t={"f": R, "a": [V(2)]})]))
+        p.rules.append(dict(rs="rs0", name="other", body=[dict(k="tab", f=N, a=[V(1)], o=V(2)), dict(k="cmp", op=op2, l=V(1), r={"i": 0})],
+                            head=[dict(k="ins", t={"f": S, "a": [V(2)]})]))
+        p.rules.append(dict(rs="rs0", name="plain", body=[dict(k="tab", f=N, a=[V(1)], o=V(2))], head=[dict(k="union", l=V(2), r={"f": N, "a": [V(1)]})]))
+        cmds = [dict(k="ins", t={"f": A, "a": []})]
+        vals = r.sample(range(0, 5), 3)
+        for v in vals:
+            cmds.append(dict(k="ins", t={"f": N, "a": [{"i": v}]}))
+        cmds.append(dict(k="run", s=dict(k="run", rs="rs0", until=[])))
+        steps = [dict(c=c, text=sessgen.cmd_text(p, c)) for c in cmds]
+        for v in vals + [7]:
+            for rel in (R, S):
+                c = sessgen.check_present(p, {"f": rel, "a": [{"f": N, "a": [{"i": v}]}]})
+                steps.append(dict(c={k2: x for k2, x in dict(c, k="prove").items() if k2 != "text"}, text="(prove %s)" % c["text"], raw="nodump"))
+        out.append(dict(id="c12-g%d" % k, mode=dict(PROOF), prog=p.struct(), active=[1, 2, 3],
+                        setup=sessgen.decl_text(p) + [sessgen.rule_text(p, x) for x in p.rules], steps=steps, tables=[fn["name"] for fn in p.funcs]))
+    return out
+
+
+NEG = {"lt": ("le", True), "le": ("lt", True), "neq": ("eq", False), "eq": ("neq", False)}
+
+
+def negate_guards(p, rule):
+    r2 = copy.deepcopy(rule)
+    for at in r2["body"]:
+        if at.get("k") == "cmp":
+            op, swap = NEG[at["op"]]
+            at["op"] = op
+            if swap:
+                at["l"], at["r"] = at["r"], at["l"]
+    return sessgen.rule_text(p, r2)
+
+
 def rebuild_prog(s):
     p = sessgen.Prog()
     p.funcs = s["prog"]["funcs"]
@@ -99,8 +148,12 @@ def checker_cases(sessions, events, per_session=5):
             real = decls + rules + [t for _, t in oktexts]
             nofacts = decls + rules + [t for k, t in oktexts if k in ("run", "rule", "fdecl")]
             norules = decls + [t for k, t in oktexts if k != "rule"]
-            cases.append(dict(id=e_id(cur), step=e["i"], real="\n".join(real), goal=e["text"],
-                              variants=dict(orig="\n".join(real), nofacts="\n".join(nofacts), norules="\n".join(norules))))
+            variants = dict(orig="\n".join(real), nofacts="\n".join(nofacts), norules="\n".join(norules))
+            p = rebuild_prog(cur)
+            neg = {sessgen.rule_text(p, x): negate_guards(p, x) for x in p.rules if any(a.get("k") == "cmp" for a in x["body"])}
+            if neg:
+                variants["guards"] = "\n".join(neg.get(t, t) for t in real)
+            cases.append(dict(id=e_id(cur), step=e["i"], real="\n".join(real), goal=e["text"], variants=variants))
     return cases
 
 
@@ -113,7 +166,7 @@ def check(tier):
     from . import sess
     t0 = time.time()
     V = core.Verdict("C12")
-    ss = sessions(tier)
+    ss = sessions(tier) + guard_sessions(tier)
     for s in ss:
         s["mode"] = PROOF
         s["cmp"] = 0
@@ -165,7 +218,8 @@ def check(tier):
                          "as a rule body in the specification's database, and never panic; since prove re-checks the extracted proof before and after simplification, "
                          "success also means the in-tree checker accepted the proof against the original program",
                          "checker soundness is sampled through set_proof_checking_program: the proof of a provable fact must be rejected against the program without "
-                         "its top-level facts, and -- when the fact does not follow from the facts alone -- against the program without its rules; single-step "
-                         "mutations of the proof object and altered rules are NOT covered (Proof.tla, the calculus, was not built)",
+                         "its top-level facts, against the program without its rules when the fact does not follow from the facts alone, and against the program whose "
+                         "rules have their primitive guards negated when the fact needs a guarded rule; single-step mutations of the proof object are NOT covered "
+                         "(Proof.tla, the calculus, was not built)",
                          "constructors, relations, rules with insert/union heads, subsume, schedules; no functions, containers, push/pop"])
     return rc
